@@ -574,6 +574,23 @@ theorem searchable_accept_is_genuine (c : CryptoOps) (hl : HashLen c) (k : Bytes
    fun kv kd hok => ⟨C09.bad_index_not_valid_translator c hl k kv kd data h p he hok,
      (translatorDecrypt_checked c (some k) kv kd data h p he hok).1⟩⟩
 
+/-- **The genuine hash pins the plaintext.** Take ANY input that still starts with the genuine index of `m`
+(the envelope behind it may have been flipped, truncated, extended, re-typed or replaced by another
+value's envelope): whatever a searchable reveal entry point accepts has the same HMAC as `m` – so, HMAC
+not colliding on the two values at hand, it IS `m`. A spliced envelope of another value behind the hash of
+`m` is therefore rejected by the hash check even where the envelope itself is intact. -/
+theorem searchable_hash_pins_plaintext (c : CryptoOps) (hl : HashLen c) (k m rest p : Bytes)
+    (hnc : NoColl c k (fun v => v = p ∨ v = m)) :
+    (∀ privs ctx, decryptSearchableStruct c k privs ctx (generateHMAC c k m ++ rest) = .ok p → p = m) ∧
+    (∀ keys ctx, decryptSearchableBlock c k keys ctx (generateHMAC c k m ++ rest) = .ok p → p = m) ∧
+    (∀ kv kd, Searchable.translatorDecrypt c (some k) kv kd (generateHMAC c k m ++ rest) = .ok p → p = m) := by
+  have he := extractHash_stored c hl k m rest
+  have hpin : generateHMAC c k m = generateHMAC c k p → p = m := fun h =>
+    hnc p m (Or.inl rfl) (Or.inr rfl) ((generateHMAC_eq_iff c k p m).mp h.symm)
+  exact ⟨fun _ _ hok => hpin (C09.bad_index_not_valid c hl k _ _ _ p he hok).1,
+         fun _ _ hok => hpin (C09.bad_index_not_valid c hl k _ _ _ p he hok).1,
+         fun kv kd hok => hpin (C09.bad_index_not_valid_translator c hl k kv kd _ _ p he hok)⟩
+
 /-- no searchable reveal entry point panics where its decrypt step does not: the hash handling itself
 (cutting off, comparing) has no failing slice or index -/
 theorem searchable_reveal_no_panic (c : CryptoOps) (hkey : Option Bytes) (kv : KeyView) (kd : Kind) (d : Bytes) :
